@@ -408,7 +408,7 @@ package io
 //@   ensures [no_reference_of_the_last_use_is_visible] len(r.ref) == 0
 
 //@ func (*Decoder).LastReferenceIndex
-//@   prop C02
+//@   prop C04 C02
 //@   nopanic
 //@   requires dec != nil
 //@   ensures [index_of_the_item_added_last] result == ite(dec.simple, -1, len(dec.refer.ref) - 1)
@@ -545,7 +545,7 @@ package io
 //@       result.Error == nil && (result.buf == nil || len(result.buf) > 0)
 
 // ---- the scalar decode handlers: one cell per kind, each wired to its own routine (C06, C01) ---
-//@ rule decode_cells prop=C06,C01
+//@ rule decode_cells prop=C04,C06,C01
 
 // ---- encoder reuse (C14) and flushing (C03) -----------------------------------------------------
 
@@ -563,7 +563,7 @@ package io
 //@   ensures [numbering_restarts] r.last == 0
 
 //@ func (*encoderRefer).AddCount
-//@   prop C02
+//@   prop C14 C02
 //@   nopanic
 //@   requires r != nil && count >= 0
 //@   modifies r.last
@@ -608,7 +608,7 @@ package io
 
 // Flush: hands the writer exactly the part of the buffer it has not seen yet, and marks it seen
 //@ func (*Encoder).Flush
-//@   prop C03
+//@   prop C14 C03
 //@   havoc
 //@   requires enc != nil && 0 <= enc.off && enc.off <= len(enc.buf)
 //@   stable enc.buf, enc.off, enc.Writer, enc.Error
